@@ -16,6 +16,14 @@ for f in sorted(glob.glob(os.path.join(HERE, "seeded", "*", "meta.json"))):
         seeds += " ; C09 " + m["seed_sweep_C09"]
     if m.get("at_head") and not m["at_head"].get("still_violates", True):
         seeds += " (no longer a violation at HEAD: " + ("patch does not apply" if not m["at_head"]["patch_applies"] else "neutralised by a later fix") + ")"
+    if m.get("seed_sweep_when_applicable"):
+        w = m["seed_sweep_when_applicable"]
+        seeds += " ; when it last applied (repo %s): %s" % (w.get("repo_head"), w["seed_sweep"])
+        if w.get("seed_sweep_C09"):
+            seeds += " ; C09 " + w["seed_sweep_C09"]
+    if m.get("sweep_at_base"):
+        b = m["sweep_at_base"]
+        seeds += " ; on its own base %s (buckets new against the base): %s" % (b.get("base"), b.get("verdicts") or b.get("error"))
     rows.append("| %s | %s | %s | %s | %s |" % (name, "yes" if m["confirmed"] else "NO", what, checks, seeds))
 print("| seeded change | confirmed | what it is / what it needs | quick tier verdicts (VERIF_SEED=1) | caught at seeds |")
 print("|---|---|---|---|---|")
